@@ -268,6 +268,8 @@ def _run_simfs(ch, cfg, hist, nextra):
     images = 0
     seen_sigs = set()
     canon_vals = [canon(v) for v in vals]
+    allkeys = {k for k, _ in hist}
+    prefix_keys = sorted({"/".join(k.split("/")[:j]) for k in allkeys for j in range(1, k.count("/") + 1)} - allkeys)
     if any("/" in k for k, _ in hist):
         stats["probe_nested_key"] += 1
     if len({k for k, _ in hist}) < len(hist):
@@ -339,6 +341,18 @@ def _run_simfs(ch, cfg, hist, nextra):
                             f"after crash at trace[{upto}] ({trace[upto - 1][:2] if upto else 'start'}) image {label}: key {key!r} "
                             f"(set #{idx} had returned{', set #%d of %r in progress' % (inprog, hist[inprog][0]) if other else ''}) "
                             f"reads {show(got) if not isinstance(got, BaseException) else repr(got)}; expected {show(vals[idx])}; file size on image: {fsize}")})
+            # keys that were never set but lie on the path of a nested key ("other" for "other/k5"; a crash between
+            # mkdir and open leaves exactly such a directory): no crash state may make the store fail for them
+            for pk in prefix_keys:
+                try:
+                    st2.get(pk)
+                    stats["probe_never_set_prefix_key_read_after_crash"] += 1
+                except BaseException as e:   # noqa
+                    sig = f"C17:never-set-prefix-key-fails:{type(e).__name__}"
+                    if sig not in seen_sigs:
+                        seen_sigs.add(sig)
+                        violations.append({"sig": sig, "msg": f"after crash at trace[{upto}] image {label}: get({pk!r}) - a key that was never set, "
+                                           f"on the path of a nested key - raises {e!r}"})
     shape = "|".join(f"{op[0]}" for op in trace if op[0] != "mark")
     keypat = ",".join(k for k, _ in hist)
     sample = {"history": [f"set({k!r}, {lit if len(lit) < 40 else lit[:37] + '...'})" for k, lit in hist],
